@@ -80,6 +80,7 @@ type lexer struct {
 	cmds     []ast.Command
 	comments []*ast.Comment
 	cmdSubst rune
+	bquote   bool
 	token    chan ast.Node
 	done     chan struct{}
 
@@ -658,6 +659,12 @@ func (l *lexer) lexToken(tok int) action {
 			return l.lexPipeline
 		}
 	case ')', RAE:
+		if l.cmdSubst == '`' && len(l.stack) == 1 && !l.bquote {
+			// only "`" closes a command substitution which was opened by "`"
+			l.error(l.pos, "syntax error: unexpected ')'")
+			return nil
+		}
+		l.bquote = false
 		if l.cmdSubst != 0 && len(l.stack) == 1 {
 			l.emit(tok)
 			l.stack = nil
@@ -993,6 +1000,7 @@ func (l *lexer) scanRaw() int {
 					return WORD
 				}
 				if len(l.stack) != 0 {
+					l.bquote = true
 					return ')'
 				}
 				return '('
